@@ -324,10 +324,22 @@ func (prog Progress) focusedTransform(n datamodel.Node, na datamodel.NodeAssembl
 		if p.Len() > 1 && !createParents {
 			return fmt.Errorf("transform: parent position at %q did not exist (and createParents was false)", prog.Path)
 		}
+		if !end {
+			// (At the end, the transform has already been asked, above.)
+			prog.Path = at.Join(p)
+			n2, err = fn(prog, nil)
+			if err != nil {
+				return err
+			}
+		}
+		if n2 == nil {
+			// "remove" for something that is not there: nothing changes, and no parents are created for it.
+			return ma.Finish()
+		}
 		if err := ma.AssembleKey().AssignString(seg.String()); err != nil {
 			return err
 		}
-		if err := prog.focusedTransform(nil, ma.AssembleValue(), p2, fn, createParents); err != nil {
+		if err := assignUnderNewParents(ma.AssembleValue(), p2, n2); err != nil {
 			return err
 		}
 		return ma.Finish()
@@ -356,10 +368,24 @@ func (prog Progress) focusedTransform(n datamodel.Node, na datamodel.NodeAssembl
 			}
 			if ti == i {
 				prog.Path = prog.Path.AppendSegment(seg)
+				replaced = true
+				if p2.Len() == 0 {
+					// This element is the target itself: a nil answer means it is removed.
+					n2, err := fn(prog, v)
+					if err != nil {
+						return err
+					}
+					if n2 == nil {
+						continue
+					}
+					if err := la.AssembleValue().AssignNode(n2); err != nil {
+						return err
+					}
+					continue
+				}
 				if err := prog.focusedTransform(v, la.AssembleValue(), p2, fn, createParents); err != nil {
 					return err
 				}
-				replaced = true
 			} else {
 				if err := la.AssembleValue().AssignNode(v); err != nil {
 					return err
@@ -375,7 +401,19 @@ func (prog Progress) focusedTransform(n datamodel.Node, na datamodel.NodeAssembl
 			return fmt.Errorf("transform: cannot navigate path segment %q at %q because it is beyond the list bounds", seg, prog.Path)
 		}
 		prog.Path = prog.Path.AppendSegment(datamodel.PathSegmentOfInt(n.Length()))
-		if err := prog.focusedTransform(nil, la.AssembleValue(), p2, fn, createParents); err != nil {
+		if p.Len() > 1 && !createParents {
+			return fmt.Errorf("transform: parent position at %q did not exist (and createParents was false)", prog.Path)
+		}
+		prog.Path = prog.Path.Join(p2)
+		n2, err := fn(prog, nil)
+		if err != nil {
+			return err
+		}
+		if n2 == nil {
+			// "remove" for an element that is not there: nothing is appended.
+			return la.Finish()
+		}
+		if err := assignUnderNewParents(la.AssembleValue(), p2, n2); err != nil {
 			return err
 		}
 		return la.Finish()
@@ -429,4 +467,23 @@ func (prog Progress) focusedTransform(n datamodel.Node, na datamodel.NodeAssembl
 	default:
 		return fmt.Errorf("transform: parent position at %q was a scalar, cannot go deeper", prog.Path)
 	}
+}
+
+// assignUnderNewParents assigns n at path p beneath na, creating a single-entry map for each segment of p.
+func assignUnderNewParents(na datamodel.NodeAssembler, p datamodel.Path, n datamodel.Node) error {
+	if p.Len() == 0 {
+		return na.AssignNode(n)
+	}
+	seg, p2 := p.Shift()
+	ma, err := na.BeginMap(1)
+	if err != nil {
+		return err
+	}
+	if err := ma.AssembleKey().AssignString(seg.String()); err != nil {
+		return err
+	}
+	if err := assignUnderNewParents(ma.AssembleValue(), p2, n); err != nil {
+		return err
+	}
+	return ma.Finish()
 }
